@@ -339,9 +339,13 @@ func (h *hist) unregister(id string) {
 
 // verify sends one message and judges the result.
 func (h *hist) verify(m *pcommon.DmqMessage, slot *uint64, kind string) bool {
+	return h.verifyObj(m, cloneMsg(m), slot, kind) // the authenticator may normalise the id fields
+}
+
+// verifyObj hands `call` itself to the authenticator (m is the pristine description used by the oracle).
+func (h *hist) verifyObj(m, call *pcommon.DmqMessage, slot *uint64, kind string) bool {
 	c := h.c
 	v := h.mo.evaluate(m, slot)
-	call := cloneMsg(m) // the authenticator may normalise the id fields
 	var err error
 	p, pv, st := core.Safely(func() {
 		if slot != nil {
@@ -551,7 +555,25 @@ func scenario(c *core.Ctx, idx int, r *core.Rand) {
 		}
 		switch k := r.Intn(20); {
 		case k < 9:
-			h.verify(p.mk(r.Bytes(r.Range(0, 60)), evo, cur[pi], uint32(r.Uint64())), slot, "valid")
+			m := p.mk(r.Bytes(r.Range(1, 60)), evo, cur[pi], uint32(r.Uint64()))
+			call := cloneMsg(m)
+			if h.verifyObj(m, call, slot, "valid") && r.Chance(1, 2) {
+				// the very object (and backing arrays) that was just accepted, mutated in place
+				type mut struct {
+					name string
+					buf  []byte
+				}
+				muts := []mut{{"kes-signature", call.KESSignature}, {"cold-signature", call.OperationalCertificate.ColdSignature},
+					{"message-id", call.MessageID}, {"body", call.Payload.MessageBody}, {"cold-key", call.ColdVerificationKey},
+					{"hot-key", call.OperationalCertificate.KESVerificationKey}}
+				mu := core.Pick(r, muts)
+				bit := r.Intn(8 * len(mu.buf))
+				mu.buf[bit/8] ^= 1 << (bit % 8)
+				h.verifyObj(cloneMsg(call), call, slot, "in-place-after-accept:"+mu.name)
+				mu.buf[bit/8] ^= 1 << (bit % 8)
+				// and the restored object is still acceptable (same counter)
+				h.verifyObj(cloneMsg(call), call, slot, "valid-restored-in-place")
+			}
 		case k < 15:
 			cr := core.Pick(r, corruptions)
 			m := p.mk(r.Bytes(r.Range(1, 60)), 0, cur[pi]+uint64(r.Intn(3)), 777)
